@@ -230,10 +230,20 @@ class _NP1:
 
 def _cases_kinds(tier):
     top = 4 if tier == "quick" else 5
-    return lambda: (ks for L in range(0, top + 1) for ks in itertools.product("MCZ", repeat=L))
+    def gen():
+        for L in range(0, top + 1):
+            for ks in itertools.product("MCZ", repeat=L):
+                nm = sum(1 for k in ks if k == "M")
+                # every assignment of pairwise different shot counts to the measurable tasks (all orders, incl. cyclic ones), plus equal counts
+                perms = list(itertools.permutations(range(nm))) if nm <= 4 else [tuple(range(nm)), tuple(reversed(range(nm)))]
+                for perm in perms:
+                    yield (ks, perm)
+                if nm >= 2:
+                    yield (ks, (0,) * nm)
+    return gen
 
 
-def _check_kinds(kinds):
+def _check_kinds(case):
     """M = measurable (Z-type operator with constant part), C = constant operator (unsimplified, two constant terms),
     Z = non-constant with 0 shots, N = non-constant with shots None.  The runner prepares a basis state."""
     import numpy as np
@@ -242,13 +252,17 @@ def _check_kinds(kinds):
     from orquestra.quantum.estimation import estimate_expectation_values_by_averaging
     from orquestra.quantum.operators import PauliSum, PauliTerm
     from orquestra.quantum.runners.symbolic_simulator import SymbolicSimulator
+    kinds, perm = case
     tasks, expected = [], []
+    jm = 0
     for i, k in enumerate(kinds):
         bits = [(i >> q) & 1 for q in range(3)]
         circ = Circuit([X(q) for q in range(3) if bits[q]], n_qubits=3)
         if k == "M":
             op = PauliSum([PauliTerm("Z0", 2.0 + i), PauliTerm("Z0*Z2", -1.5), PauliTerm("I0", 0.25 * (i + 1))])
-            tasks.append(EstimationTask(op, circ, 3 + i))
+            shots_i = 3 + i if perm is None else 10 * (perm[jm] + 1)
+            jm += 1
+            tasks.append(EstimationTask(op, circ, shots_i))
             expected.append([(2.0 + i) * (-1) ** bits[0], -1.5 * (-1) ** (bits[0] + bits[2]), 0.25 * (i + 1)])
         elif k == "C":
             op = PauliSum([PauliTerm("I0", 1.0 + i), PauliTerm("I0", 2.0)])
@@ -264,7 +278,7 @@ def _check_kinds(kinds):
         return False, f"{len(out)} results for {len(tasks)} tasks"
     for i, (o, e) in enumerate(zip(out, expected)):
         if o is None or len(o.values) != len(e) or not np.allclose(o.values, e, atol=1e-12):
-            return False, f"kinds {''.join(kinds)}: result {i} is {None if o is None else list(o.values)} expected {e}"
+            return False, f"kinds {''.join(kinds)}, shots {[t.number_of_shots for t in tasks]}: result {i} is {None if o is None else list(o.values)} expected {e}"
     if [(t.operator, t.circuit, t.number_of_shots) for t in tasks] != before:
         return False, "tasks were modified"
     return True, "ok"
@@ -285,7 +299,10 @@ def _check_bind_exact(n):
     shots = [10, 0, None, 7, 0]
     tasks = []
     for i in range(n):
-        op = PauliSum([PauliTerm("Z0", 1.0 + i), PauliTerm("X0*Z1", 0.5)]) if i % 4 != 3 else PauliSum([PauliTerm("I0", 2.0 + i)])
+        op = [PauliSum([PauliTerm("Z0", 1.0 + i), PauliTerm("X0*Z1", 0.5)]),
+              PauliSum([PauliTerm("Z0", 2.0), PauliTerm("Z1", 3.0), PauliTerm("Z0", 5.0 + i), PauliTerm("Z0*Z1", -1.0), PauliTerm("Z1*Z0", 0.5)]),    # unsimplified Ising sum, repeated supports
+              PauliSum([PauliTerm("I0", 2.0 + i), PauliTerm("Z1", 1.0), PauliTerm("I0", -0.75)]),                                                    # constant written as two identity terms
+              PauliSum([PauliTerm("I0", 2.0 + i)])][i % 4]
         circ = shared if i % 2 == 0 else Circuit([RX(th * (i + 1))(0), X(1)])
         tasks.append(EstimationTask(op, circ, shots[i % len(shots)]))
     maps = [{th: 0.1 * (i + 1)} for i in range(n)]
